@@ -586,7 +586,7 @@ func c01ViewSweep(c *core.Ctx, spec viewSpec, k int) {
 
 func c01Run(c *core.Ctx, args []string) {
 	c.Res.Level = "exploration"
-	c.Res.Rule = "(A) every structural frame template (EtherType x source MAC class x IPv4 IHL/TotalLen/protocol, IPv6 payload length/next header, UDP port alphabet, TCP data offsets, ICMP types, ARP hlen/plen, VLAN tags, long frames) truncated at EVERY length 0..L, each in 4 capacity variants (cap=len, +64 spare bytes 0x00, +64 spare bytes 0xff, and the rest of the un-truncated frame left in the spare capacity as in a reused read buffer); (B) for each of the 24 exported view types every length 0..min+40 x 3 fills x all strings over {00,01,02,06,7f,80,ff} on the type's control offsets (quick: 3 offsets, thorough: 5), all 256 values at every position of a valid instance and every truncation of it; after IsValid()==nil every zero-argument getter is invoked by reflection. distinct non-trivial = distinct inputs accepted by Parse (A) or passing IsValid (B)"
+	c.Res.Rule = "(A) every structural frame template (EtherType x source MAC class x IPv4 IHL/TotalLen/protocol, IPv6 payload length/next header, UDP port alphabet, TCP data offsets, ICMP types, ARP hlen/plen, VLAN tags, long frames) truncated at EVERY length 0..L, each in 4 capacity variants (cap=len, +64 spare bytes 0x00, +64 spare bytes 0xff, and the rest of the un-truncated frame left in the spare capacity as in a reused read buffer); (B) for each of the 24 exported view types every length 0..min+40 x 3 fills x all strings over {00,01,02,06,7f,80,ff} on the type's control offsets (quick: 3 offsets, thorough: 5), all 256 values at every position of a valid instance and every truncation of it; for the two NDP message views with options every option type x every length byte 0..255 x 8 option-area sizes x 2 fills; after IsValid()==nil every zero-argument getter is invoked by reflection. distinct non-trivial = distinct inputs accepted by Parse (A) or passing IsValid (B)"
 	c.Res.Assumptions = []string{"memory safety is observed through recovered panics, pointer-range checks on returned slices and a deterministic loop-iteration budget (non-termination)", "inputs outside the templates/alphabets are not explored"}
 	st := &c01State{}
 	tmpls := frameTemplates(c.Thorough())
